@@ -3,32 +3,58 @@
 // Engine E1: the full product
 //
 //	feature variant (generic point, generic path, area by path IDs, area by
-//	polygons, mixed area, relation, collection; several sizes, with and without
-//	spare slice capacity in the thorough tier)
+//	polygons, mixed area, relation, collection; several sizes, including values
+//	with NO tags, no points, no path IDs, no polygons, no members, no items)
+//	x backing-array LAYOUT of every slice the value owns (tag list, path point
+//	list, per-polygon path-ID lists, the area's polygon lists, relation members,
+//	collection keys and values): exact capacity | spare capacity from
+//	make(len, len+3) | spare capacity left by growing and cutting back (tags:
+//	AddTag x2 then RemoveTags; the spare slots hold stale entries). An EMPTY list
+//	in a spare layout is "empty with spare capacity".
 //	x mutator reachable through the feature API, at every target index
 //	x scenario
 //
-// Scenarios on a world (BasicMutableWorld and MutableOverlayWorld; the feature
-// is new, replaces a feature already added to the world, or shadows a feature
-// of the overlay's base):
+// One-side scenarios on a world (BasicMutableWorld and MutableOverlayWorld; the
+// feature is new, replaces a feature already added to the world, or shadows a
+// feature of the overlay's base):
 //
 //	a   AddFeature(f); mutate f                      -> world dump unchanged
 //	b1  c := f.Clone(); AddFeature(f); mutate c      -> world dump unchanged
 //	b2  AddFeature(f); c := f.Clone(); mutate c      -> world dump unchanged
 //	b3  c := f.Clone(); AddFeature(c); mutate f      -> world dump unchanged
 //
-// Scenarios without a world (clone independence):
+// One-side scenarios without a world (clone independence):
 //
 //	c1  c := f.Clone(); mutate c -> f renders as before
 //	c2  c := f.Clone(); mutate f -> c renders as before (and c rendered like f to begin with)
 //
-// The oracle is the statement's own differential: the worldkit dump of the
-// world (resp. a rendering of the untouched value through its public fields
-// and methods) before and after the caller-side mutation.
+// BOTH-SIDES scenarios: two values that must be independent are each changed,
+// one after the other, in both orders, and then BOTH are observed.
+//
+//	a/b1/b2/b3 x world operation on the feature's ID (AddTag of a new searchable
+//	  key, of a new plain key, of every existing key; RemoveTag of every key
+//	  [quick tier: of the first existing key]; AddFeature of other content;
+//	  AddFeature of grown content) x caller-side mutator x {world first, caller first}
+//	d   c := f.Clone(); every mutator on f x every mutator on c x {f first, c first}
+//	e   c1, c2 := f.Clone(), f.Clone(); every mutator on c1 x every mutator on c2 x
+//	  {c1 first, c2 first}; f must stay as it was
+//
+// The two sides write different content (different keys, values, IDs), so a
+// write landing in the other side's slot is visible.
+//
+// Oracles. One-side: the statement's own differential — the worldkit dump of
+// the world (resp. a rendering of the untouched value through its public fields
+// and methods) before and after the caller-side mutation. Both-sides: each side
+// is compared with what THAT SIDE ALONE holds: a replica of the side (a fresh
+// value of the same layout that is never cloned or added, resp. a fresh world
+// of the same mode that got a fresh value and whose caller never touches it
+// again) to which only that side's operation is applied. Values that neither
+// operation addresses (the bystander original/clone) must render as before.
 package main
 
 import (
 	"fmt"
+	"runtime"
 	"sort"
 	"strings"
 
@@ -69,6 +95,7 @@ func support() wk.Spec {
 		wk.FSpec{ID: wid(0), Kind: wk.KPath, Path: wk.Refs(pid(0), pid(1), pid(2), pid(3), pid(0))},
 		wk.FSpec{ID: wid(1), Kind: wk.KPath, Path: wk.Refs(pid(4), pid(5), pid(6), pid(7), pid(4))},
 		wk.FSpec{ID: wid(2), Kind: wk.KPath, Path: wk.Refs(pid(0), pid(1), pid(2), pid(0))},
+		wk.FSpec{ID: wid(3), Kind: wk.KPath, Path: wk.Refs(pid(4), pid(5), pid(6), pid(4))},
 	)
 	return s
 }
@@ -76,12 +103,13 @@ func support() wk.Spec {
 // ---- feature variants ---------------------------------------------------------
 
 type variant struct {
-	name  string
-	kind  string   // classifier: point, path, area-by-paths, area-by-polygons, area-mixed, relation, collection
-	spec  wk.FSpec // the feature under test
-	other wk.FSpec // same ID, different content of a different size: the earlier version (replace / shadow modes) and the MergeFrom argument
-	spare bool     // build with spare capacity in every slice
-	quick bool
+	name      string
+	kind      string                // classifier: point, path, area-by-paths, area-by-polygons, area-mixed, relation, collection, generic
+	spec      wk.FSpec              // the feature under test
+	other     wk.FSpec              // same ID, different content of a different size: the earlier version (replace / shadow modes), the world's AddFeature(other content) and the MergeFrom argument
+	mk        func() ingest.Feature // overrides spec.Feature() (values the spec language cannot express)
+	cloneOnly bool                  // not a valid member of a world: clone scenarios only
+	quick     bool
 }
 
 func variants() []variant {
@@ -91,14 +119,7 @@ func variants() []variant {
 	loopsB := [][]wk.LL{square(30, 30, 2)}
 	loopsC := [][]wk.LL{{wk.G(40, 40), wk.G(40, 43), wk.G(43, 43)}}
 	var vs []variant
-	add := func(v variant) {
-		vs = append(vs, v)
-		sp := v
-		sp.name += "+spare-capacity"
-		sp.spare = true
-		sp.quick = false
-		vs = append(vs, sp)
-	}
+	add := func(v variant) { vs = append(vs, v) }
 	// points
 	add(variant{name: "point/3tags", kind: "point", quick: true,
 		spec:  wk.FSpec{ID: pid(20), Kind: wk.KPoint, LL: wk.G(5, 5), Tags: tg},
@@ -106,6 +127,10 @@ func variants() []variant {
 	add(variant{name: "point/no-tags", kind: "point",
 		spec:  wk.FSpec{ID: pid(20), Kind: wk.KPoint, LL: wk.G(5, 5)},
 		other: wk.FSpec{ID: pid(20), Kind: wk.KPoint, LL: wk.G(6, 6), Tags: tg}})
+	add(variant{name: "generic/no-tags-at-all", kind: "generic", quick: true, cloneOnly: true,
+		spec:  wk.FSpec{ID: pid(20), Kind: wk.KPoint},
+		mk:    func() ingest.Feature { return &ingest.GenericFeature{ID: pid(20)} },
+		other: wk.FSpec{ID: pid(20), Kind: wk.KPoint, LL: wk.G(6, 6), Tags: tags("name", "old")}})
 	// paths
 	mixed := []wk.PathPt{{Ref: pid(0)}, {LL: wk.G(1, 1)}, {Ref: pid(1)}, {Ref: pid(2)}}
 	add(variant{name: "path/mixed-4", kind: "path", quick: true,
@@ -114,6 +139,12 @@ func variants() []variant {
 	add(variant{name: "path/refs-2", kind: "path",
 		spec:  wk.FSpec{ID: wid(20), Kind: wk.KPath, Path: wk.Refs(pid(0), pid(1)), Tags: tags("#highway", "path")},
 		other: wk.FSpec{ID: wid(20), Kind: wk.KPath, Path: wk.LLs(wk.G(7, 7), wk.G(8, 8), wk.G(9, 7))}})
+	add(variant{name: "path/empty-point-list", kind: "path", quick: true, cloneOnly: true,
+		spec: wk.FSpec{ID: wid(20), Kind: wk.KPath},
+		mk: func() ingest.Feature {
+			return &ingest.GenericFeature{ID: wid(20), Tags: b6.Tags{{Key: b6.PathTag, Value: b6.NewExpressions([]b6.AnyExpression{})}}}
+		},
+		other: wk.FSpec{ID: wid(20), Kind: wk.KPath, Path: wk.Refs(pid(0), pid(1), pid(2)), Tags: tags("name", "old")}})
 	// areas
 	add(variant{name: "area/2-polygons-by-path", kind: "area-by-paths", quick: true,
 		spec:  wk.FSpec{ID: aid(20), Kind: wk.KArea, Polys: []wk.PolySpec{{Paths: []b6.FeatureID{wid(0)}}, {Paths: []b6.FeatureID{wid(1)}}}, Tags: tags("#building", "yes", "name", "x")},
@@ -121,9 +152,21 @@ func variants() []variant {
 	add(variant{name: "area/1-polygon-of-2-paths", kind: "area-by-paths",
 		spec:  wk.FSpec{ID: aid(20), Kind: wk.KArea, Polys: []wk.PolySpec{{Paths: []b6.FeatureID{wid(0), wid(1)}}}, Tags: tags("#building", "yes")},
 		other: wk.FSpec{ID: aid(20), Kind: wk.KArea, Polys: []wk.PolySpec{{Paths: []b6.FeatureID{wid(2)}}, {Loops: loopsA}, {Paths: []b6.FeatureID{wid(1)}}}}})
+	add(variant{name: "area/no-tags,1-polygon-by-path", kind: "area-by-paths", quick: true,
+		spec:  wk.FSpec{ID: aid(20), Kind: wk.KArea, Polys: []wk.PolySpec{{Paths: []b6.FeatureID{wid(0)}}}},
+		other: wk.FSpec{ID: aid(20), Kind: wk.KArea, Polys: []wk.PolySpec{{Paths: []b6.FeatureID{wid(2)}}, {Paths: []b6.FeatureID{wid(1)}}}, Tags: tags("name", "old")}})
+	add(variant{name: "area/no-tags,no-polygons", kind: "area-by-paths", quick: true,
+		spec:  wk.FSpec{ID: aid(20), Kind: wk.KArea},
+		other: wk.FSpec{ID: aid(20), Kind: wk.KArea, Polys: []wk.PolySpec{{Paths: []b6.FeatureID{wid(2)}}, {Loops: loopsB}}, Tags: tags("name", "old")}})
+	add(variant{name: "area/polygon-with-empty-path-list", kind: "area-by-paths", quick: true, cloneOnly: true,
+		spec:  wk.FSpec{ID: aid(20), Kind: wk.KArea, Polys: []wk.PolySpec{{Paths: []b6.FeatureID{}}}},
+		other: wk.FSpec{ID: aid(20), Kind: wk.KArea, Polys: []wk.PolySpec{{Paths: []b6.FeatureID{wid(2)}}, {Paths: []b6.FeatureID{wid(1)}}}, Tags: tags("name", "old")}})
 	add(variant{name: "area/2-polygons", kind: "area-by-polygons", quick: true,
 		spec:  wk.FSpec{ID: aid(20), Kind: wk.KArea, Polys: []wk.PolySpec{{Loops: loopsA}, {Loops: loopsB}}, Tags: tags("#building", "yes", "name", "x")},
 		other: wk.FSpec{ID: aid(20), Kind: wk.KArea, Polys: []wk.PolySpec{{Loops: loopsC}}, Tags: tg2}})
+	add(variant{name: "area/no-tags,1-polygon", kind: "area-by-polygons",
+		spec:  wk.FSpec{ID: aid(20), Kind: wk.KArea, Polys: []wk.PolySpec{{Loops: loopsA}}},
+		other: wk.FSpec{ID: aid(20), Kind: wk.KArea, Polys: []wk.PolySpec{{Loops: loopsC}, {Loops: loopsB}}, Tags: tags("name", "old")}})
 	add(variant{name: "area/path+polygon", kind: "area-mixed",
 		spec:  wk.FSpec{ID: aid(20), Kind: wk.KArea, Polys: []wk.PolySpec{{Paths: []b6.FeatureID{wid(0)}}, {Loops: loopsB}}, Tags: tags("#landuse", "park")},
 		other: wk.FSpec{ID: aid(20), Kind: wk.KArea, Polys: []wk.PolySpec{{Loops: loopsA}, {Paths: []b6.FeatureID{wid(1)}}, {Loops: loopsC}}, Tags: tg2}})
@@ -131,75 +174,64 @@ func variants() []variant {
 	add(variant{name: "relation/3-members", kind: "relation", quick: true,
 		spec:  wk.FSpec{ID: rid(20), Kind: wk.KRelation, Members: []wk.MemberSpec{{ID: pid(0), Role: "stop"}, {ID: wid(0), Role: ""}, {ID: pid(1), Role: "x"}}, Tags: tags("#route", "bus", "name", "x")},
 		other: wk.FSpec{ID: rid(20), Kind: wk.KRelation, Members: []wk.MemberSpec{{ID: pid(2), Role: "a"}, {ID: pid(3), Role: "b"}, {ID: wid(1), Role: "c"}, {ID: pid(4), Role: "d"}}, Tags: tg2}})
-	add(variant{name: "relation/1-member", kind: "relation",
+	add(variant{name: "relation/no-tags,1-member", kind: "relation",
 		spec:  wk.FSpec{ID: rid(20), Kind: wk.KRelation, Members: []wk.MemberSpec{{ID: wid(0), Role: "outer"}}},
 		other: wk.FSpec{ID: rid(20), Kind: wk.KRelation, Tags: tags("type", "site")}})
+	add(variant{name: "relation/no-tags,no-members", kind: "relation", quick: true,
+		spec:  wk.FSpec{ID: rid(20), Kind: wk.KRelation},
+		other: wk.FSpec{ID: rid(20), Kind: wk.KRelation, Members: []wk.MemberSpec{{ID: pid(2), Role: "a"}, {ID: wid(1), Role: "c"}}, Tags: tags("type", "site")}})
 	// collections
 	add(variant{name: "collection/3-items", kind: "collection", quick: true,
 		spec:  wk.FSpec{ID: cid(20), Kind: wk.KCollection, Items: []wk.KV{{K: "id:" + pid(1).String(), V: "s:a"}, {K: "id:" + pid(0).String(), V: "i:1"}, {K: "id:" + wid(0).String(), V: "id:" + pid(1).String()}}, Tags: tags("#kind", "set", "name", "x")},
 		other: wk.FSpec{ID: cid(20), Kind: wk.KCollection, Items: []wk.KV{{K: "s:k", V: "s:old"}}, Tags: tg2}})
-	add(variant{name: "collection/string-keys", kind: "collection",
+	add(variant{name: "collection/no-tags,string-keys", kind: "collection",
 		spec:  wk.FSpec{ID: cid(20), Kind: wk.KCollection, Items: []wk.KV{{K: "s:b", V: "i:2"}, {K: "s:a", V: "i:1"}}},
 		other: wk.FSpec{ID: cid(20), Kind: wk.KCollection, Items: []wk.KV{{K: "id:" + pid(2).String(), V: "s:p"}, {K: "id:" + pid(3).String(), V: "s:q"}, {K: "s:z", V: "s:r"}}, Tags: tags("name", "old")}})
+	add(variant{name: "collection/no-tags,no-items", kind: "collection", quick: true,
+		spec:  wk.FSpec{ID: cid(20), Kind: wk.KCollection},
+		other: wk.FSpec{ID: cid(20), Kind: wk.KCollection, Items: []wk.KV{{K: "id:" + pid(2).String(), V: "s:p"}, {K: "s:z", V: "s:r"}}, Tags: tags("name", "old")}})
 	return vs
 }
 
-// build makes a fresh ingest value; with spare capacity in every slice if asked.
-func build(s wk.FSpec, spare bool) ingest.Feature {
-	f := s.Feature()
-	if !spare {
-		return f
-	}
-	grow := func(t b6.Tags) b6.Tags {
-		out := make(b6.Tags, len(t), len(t)+4)
-		copy(out, t)
-		for i := range out {
-			if es, ok := out[i].Value.AnyExpression.(b6.Expressions); ok {
-				ne := make(b6.Expressions, len(es), len(es)+4)
-				copy(ne, es)
-				out[i].Value = b6.Expression{AnyExpression: ne}
-			}
-		}
+// ---- backing-array layouts ------------------------------------------------------
+
+type layout int
+
+const (
+	layExact layout = iota
+	laySpareMake
+	laySpareCut
+)
+
+var layouts = []layout{layExact, laySpareMake, laySpareCut}
+
+func (l layout) String() string {
+	return [...]string{"exact-capacity", "spare-capacity:make(len,len+3)", "spare-capacity:grown-then-cut-back"}[l]
+}
+
+// relay copies s into a fresh backing array of the layout. A nil list stays nil
+// in the exact layout and becomes an empty list with spare capacity otherwise.
+func relay[T any](s []T, lay layout, junk T) []T {
+	n := len(s)
+	switch lay {
+	case laySpareMake:
+		out := make([]T, n, n+3)
+		copy(out, s)
 		return out
+	case laySpareCut:
+		out := make([]T, n)
+		copy(out, s)
+		out = append(out, junk)
+		out = append(out, junk)
+		return out[:n]
 	}
-	switch v := f.(type) {
-	case *ingest.GenericFeature:
-		v.Tags = grow(v.Tags)
-	case *ingest.AreaFeature:
-		v.Tags = grow(v.Tags)
-		for i := 0; i < v.Len(); i++ {
-			if ids, ok := v.PathIDs(i); ok {
-				ni := make([]b6.FeatureID, len(ids), len(ids)+4)
-				copy(ni, ids)
-				v.SetPathIDs(i, ni)
-			}
-		}
-	case *ingest.RelationFeature:
-		v.Tags = grow(v.Tags)
-		nm := make([]b6.RelationMember, len(v.Members), len(v.Members)+4)
-		copy(nm, v.Members)
-		v.Members = nm
-	case *ingest.CollectionFeature:
-		v.Tags = grow(v.Tags)
-		nk := make([]interface{}, len(v.Keys), len(v.Keys)+4)
-		copy(nk, v.Keys)
-		v.Keys = nk
-		nv := make([]interface{}, len(v.Values), len(v.Values)+4)
-		copy(nv, v.Values)
-		v.Values = nv
+	if s == nil {
+		return nil
 	}
-	return f
+	out := make([]T, n)
+	copy(out, s)
+	return out
 }
-
-// ---- mutators -----------------------------------------------------------------------
-
-type mutator struct {
-	name  string // with target index
-	class string // without
-	do    func(f ingest.Feature)
-}
-
-func str(s string) b6.Expression { return b6.NewStringExpression(s) }
 
 func tagsPtr(f ingest.Feature) *b6.Tags {
 	switch v := f.(type) {
@@ -215,52 +247,241 @@ func tagsPtr(f ingest.Feature) *b6.Tags {
 	panic("unknown feature type")
 }
 
+// buildSpec makes a fresh ingest value whose every slice has the given layout.
+// Only the public API of the feature types is used to get there.
+func buildSpec(s wk.FSpec, mk func() ingest.Feature, lay layout) ingest.Feature {
+	var f ingest.Feature
+	if mk != nil {
+		f = mk()
+	} else {
+		f = s.Feature()
+	}
+	if a, ok := f.(*ingest.AreaFeature); ok && lay != layExact {
+		// the area's own lists of polygons: a longer area cut back by MergeFrom
+		n := a.Len()
+		big := ingest.NewAreaFeature(n + 2)
+		for i := 0; i < n+2; i++ {
+			big.SetPathIDs(i, []b6.FeatureID{wid(2), wid(1)})
+		}
+		big.MergeFrom(a)
+		f = big
+	}
+	// tag list; the lists of expressions inside tag values (path points) first
+	tp := tagsPtr(f)
+	cur := relay([]b6.Tag(*tp), layExact, b6.Tag{})
+	for i := range cur {
+		if es, ok := cur[i].Value.AnyExpression.(b6.Expressions); ok {
+			cur[i].Value = b6.Expression{AnyExpression: b6.Expressions(relay([]b6.AnyExpression(es), lay, b6.AnyExpression(b6.FeatureIDExpression(pid(3)))))}
+		}
+	}
+	switch lay {
+	case layExact:
+		*tp = cur
+	case laySpareMake:
+		*tp = relay(cur, laySpareMake, b6.Tag{})
+	case laySpareCut:
+		*tp = cur
+		f.AddTag(b6.Tag{Key: "~junk0", Value: str("stale")})
+		f.AddTag(b6.Tag{Key: "#~junk1", Value: str("stale")})
+		f.RemoveTags([]string{"~junk0", "#~junk1"})
+	}
+	switch v := f.(type) {
+	case *ingest.AreaFeature:
+		for i := 0; i < v.Len(); i++ {
+			if ids, ok := v.PathIDs(i); ok {
+				v.SetPathIDs(i, relay(ids, lay, wid(1)))
+			}
+		}
+	case *ingest.RelationFeature:
+		v.Members = relay(v.Members, lay, b6.RelationMember{ID: pid(3), Role: "stale"})
+	case *ingest.CollectionFeature:
+		v.Keys = relay(v.Keys, lay, interface{}("stale"))
+		v.Values = relay(v.Values, lay, interface{}("stale"))
+	}
+	return f
+}
+
+func build(v variant, lay layout) ingest.Feature { return buildSpec(v.spec, v.mk, lay) }
+
+func sliceClass(n, c int, isNil bool) string {
+	switch {
+	case isNil:
+		return "nil"
+	case n == 0 && c == 0:
+		return "empty,no-capacity"
+	case n == 0:
+		return "EMPTY+spare-capacity"
+	case n == c:
+		return "exact"
+	}
+	return "spare-capacity"
+}
+
+// layoutOf lists the layout class of every slice the value owns: name -> class.
+func layoutOf(f ingest.Feature) [][2]string {
+	var out [][2]string
+	t := *tagsPtr(f)
+	out = append(out, [2]string{"tags", sliceClass(len(t), cap(t), t == nil)})
+	for _, tag := range t {
+		if es, ok := tag.Value.AnyExpression.(b6.Expressions); ok {
+			out = append(out, [2]string{"path-points", sliceClass(len(es), cap(es), es == nil)})
+		}
+	}
+	switch v := f.(type) {
+	case *ingest.AreaFeature:
+		li, ci, lp, cp := v.VerifC38Layout()
+		out = append(out, [2]string{"area-polygon-lists", sliceClass(li, ci, false) + "/" + sliceClass(lp, cp, false)})
+		for i := 0; i < v.Len(); i++ {
+			if ids, ok := v.PathIDs(i); ok {
+				out = append(out, [2]string{"area-path-ids", sliceClass(len(ids), cap(ids), false)})
+			}
+		}
+	case *ingest.RelationFeature:
+		out = append(out, [2]string{"members", sliceClass(len(v.Members), cap(v.Members), v.Members == nil)})
+	case *ingest.CollectionFeature:
+		out = append(out, [2]string{"keys", sliceClass(len(v.Keys), cap(v.Keys), v.Keys == nil)})
+		out = append(out, [2]string{"values", sliceClass(len(v.Values), cap(v.Values), v.Values == nil)})
+	}
+	return out
+}
+
+func layoutText(f ingest.Feature) string {
+	var parts []string
+	for _, kv := range layoutOf(f) {
+		parts = append(parts, kv[0]+":"+kv[1])
+	}
+	return strings.Join(parts, " ")
+}
+
+// ---- mutators -----------------------------------------------------------------------
+
+type mutator struct {
+	name  string // with target index
+	class string // without
+	fam   string // which part of the value it edits (violation classes of the both-sides scenarios)
+	do    func(f ingest.Feature)
+}
+
+func family(class, target string) string {
+	switch {
+	case strings.HasPrefix(class, "path-expressions"), class == "ModifyOrAddTagAt" && strings.HasPrefix(target, "(path"):
+		return "path-points"
+	case strings.HasPrefix(class, "SetPath"), class == "SetPolygon":
+		return "area-members"
+	case strings.HasPrefix(class, "Members"):
+		return "members"
+	case strings.HasPrefix(class, "Keys"), strings.HasPrefix(class, "Values"), class == "Sort":
+		return "items"
+	case class == "SetFeatureID":
+		return "id"
+	case class == "MergeFrom":
+		return "MergeFrom"
+	}
+	return "tags"
+}
+
+func str(s string) b6.Expression { return b6.NewStringExpression(s) }
+
+// flavour: what a side writes. The two sides of a both-sides scenario write
+// different keys, values and IDs.
+type flavour struct {
+	sfx    string
+	pt     b6.FeatureID // written into point lists, members, keys
+	pt2    b6.FeatureID
+	path   b6.FeatureID // written into path-ID lists
+	grid   int          // where the polygon written lies
+	altArg bool         // MergeFrom argument: alt(other) instead of other
+}
+
+var flavours = [2]flavour{
+	{sfx: "", pt: pid(5), pt2: pid(4), path: wid(2), grid: 60},
+	{sfx: "-B", pt: pid(6), pt2: pid(7), path: wid(3), grid: 70, altArg: true},
+}
+
+// alt derives different content of the same shape class from a spec (MergeFrom
+// argument of the second side; never added to a world).
+func alt(s wk.FSpec) wk.FSpec {
+	o := s
+	o.Tags = nil
+	for _, t := range s.Tags {
+		o.Tags = append(o.Tags, wk.TagSpec{Key: t.Key, Value: t.Value + "-B"})
+	}
+	o.Tags = append(o.Tags, wk.TagSpec{Key: "alt", Value: "B"})
+	o.LL = wk.LL{Lat: s.LL.Lat + 1000, Lng: s.LL.Lng}
+	o.Path = nil
+	for i := len(s.Path) - 1; i >= 0; i-- {
+		o.Path = append(o.Path, s.Path[i])
+	}
+	o.Polys = nil
+	for i := len(s.Polys) - 1; i >= 0; i-- {
+		p := s.Polys[i]
+		if p.Paths != nil {
+			p.Paths = append([]b6.FeatureID{wid(3)}, p.Paths...)
+		}
+		o.Polys = append(o.Polys, p)
+	}
+	o.Members = nil
+	for i := len(s.Members) - 1; i >= 0; i-- {
+		o.Members = append(o.Members, wk.MemberSpec{ID: s.Members[i].ID, Role: s.Members[i].Role + "-B"})
+	}
+	o.Items = nil
+	for i := len(s.Items) - 1; i >= 0; i-- {
+		o.Items = append(o.Items, wk.KV{K: s.Items[i].K, V: "s:alt-B"})
+	}
+	return o
+}
+
 // mutatorsFor enumerates every mutator at every target index of the value's shape.
-func mutatorsFor(v variant) []mutator {
+func mutatorsFor(v variant, fl flavour) []mutator {
 	var ms []mutator
 	add := func(class, target string, do func(f ingest.Feature)) {
-		ms = append(ms, mutator{name: class + target, class: class, do: do})
+		ms = append(ms, mutator{name: class + target + fl.sfx, class: class, fam: family(class, target), do: do})
 	}
-	probe := build(v.spec, false)
+	probe := build(v, layExact)
 	all := probe.AllTags()
 	var keys []string
 	for _, t := range all {
 		keys = append(keys, t.Key)
 	}
+	x := fl.sfx
 	// --- tag methods of the Feature interface
-	add("AddTag", "(new key)", func(f ingest.Feature) { f.AddTag(b6.Tag{Key: "#added", Value: str("v")}) })
-	add("ModifyOrAddTag", "(new key)", func(f ingest.Feature) { f.ModifyOrAddTag(b6.Tag{Key: "#added", Value: str("v")}) })
+	add("AddTag", "(new key)", func(f ingest.Feature) { f.AddTag(b6.Tag{Key: "#added" + x, Value: str("v" + x)}) })
+	add("ModifyOrAddTag", "(new key)", func(f ingest.Feature) { f.ModifyOrAddTag(b6.Tag{Key: "#added" + x, Value: str("v" + x)}) })
+	add("ModifyOrAddTagAt", "(new key, 1)", func(f ingest.Feature) { f.ModifyOrAddTagAt(b6.Tag{Key: "#at" + x, Value: str("v" + x)}, 1) })
 	for i, k := range keys {
 		i, k := i, k
 		if k == b6.PointTag || k == b6.PathTag {
 			// replacing the geometry tag as a whole through the tag API
 			add("ModifyOrAddTag", fmt.Sprintf("(geometry tag #%d %s)", i, k), func(f ingest.Feature) {
 				if k == b6.PointTag {
-					f.ModifyOrAddTag(b6.Tag{Key: k, Value: b6.NewPointExpressionFromLatLng(wk.G(50, 50).LatLng())})
+					f.ModifyOrAddTag(b6.Tag{Key: k, Value: b6.NewPointExpressionFromLatLng(wk.G(fl.grid-10, fl.grid-10).LatLng())})
 				} else {
-					f.ModifyOrAddTag(b6.Tag{Key: k, Value: b6.NewExpressions([]b6.AnyExpression{b6.FeatureIDExpression(pid(4)), b6.FeatureIDExpression(pid(5))})})
+					f.ModifyOrAddTag(b6.Tag{Key: k, Value: b6.NewExpressions([]b6.AnyExpression{b6.FeatureIDExpression(fl.pt2), b6.FeatureIDExpression(fl.pt)})})
 				}
 			})
 		} else {
-			add("ModifyOrAddTag", fmt.Sprintf("(tag #%d %s)", i, k), func(f ingest.Feature) { f.ModifyOrAddTag(b6.Tag{Key: k, Value: str("changed")}) })
+			add("ModifyOrAddTag", fmt.Sprintf("(tag #%d %s)", i, k), func(f ingest.Feature) { f.ModifyOrAddTag(b6.Tag{Key: k, Value: str("changed" + x)}) })
 		}
 		add("RemoveTag", fmt.Sprintf("(tag #%d %s)", i, k), func(f ingest.Feature) { f.RemoveTag(k) })
 		add("RemoveTags", fmt.Sprintf("([tag #%d %s])", i, k), func(f ingest.Feature) { f.RemoveTags([]string{k}) })
-		add("Tags[i].Value=", fmt.Sprintf("(tag #%d %s)", i, k), func(f ingest.Feature) { (*tagsPtr(f))[i].Value = str("written") })
-		add("Tags[i].Key=", fmt.Sprintf("(tag #%d %s)", i, k), func(f ingest.Feature) { (*tagsPtr(f))[i].Key = "#renamed" })
+		add("Tags[i].Value=", fmt.Sprintf("(tag #%d %s)", i, k), func(f ingest.Feature) { (*tagsPtr(f))[i].Value = str("written" + x) })
+		add("Tags[i].Key=", fmt.Sprintf("(tag #%d %s)", i, k), func(f ingest.Feature) { (*tagsPtr(f))[i].Key = "#renamed" + x })
 	}
 	if len(keys) >= 2 {
 		add("RemoveTags", "(first two tags)", func(f ingest.Feature) { f.RemoveTags([]string{keys[1], keys[0]}) })
 		add("RemoveTags", "(all tags)", func(f ingest.Feature) { f.RemoveTags(append([]string{}, keys...)) })
 	}
 	add("SetTags", "(new list)", func(f ingest.Feature) {
-		f.SetTags([]b6.Tag{{Key: "#set", Value: str("1")}, {Key: "other", Value: str("2")}})
+		f.SetTags([]b6.Tag{{Key: "#set" + x, Value: str("1" + x)}, {Key: "other", Value: str("2" + x)}})
 	})
 	add("SetTags", "(nil)", func(f ingest.Feature) { f.SetTags(nil) })
 	add("RemoveAllTags", "()", func(f ingest.Feature) { f.RemoveAllTags() })
 	add("SetFeatureID", "()", func(f ingest.Feature) {
 		id := f.FeatureID()
 		id.Value += 100
+		if fl.altArg {
+			id.Value += 100
+		}
 		f.SetFeatureID(id)
 	})
 	// --- path point list
@@ -269,14 +490,14 @@ func mutatorsFor(v variant) []mutator {
 		for j := 0; j <= n; j++ {
 			j := j
 			add("ModifyOrAddTagAt", fmt.Sprintf("(path, %d of %d)", j, n), func(f ingest.Feature) {
-				f.ModifyOrAddTagAt(b6.Tag{Key: b6.PathTag, Value: b6.NewFeatureIDExpression(pid(5))}, j)
+				f.ModifyOrAddTagAt(b6.Tag{Key: b6.PathTag, Value: b6.NewFeatureIDExpression(fl.pt)}, j)
 			})
 		}
 		for j := 0; j < n; j++ {
 			j := j
 			add("path-expressions[j]=", fmt.Sprintf("(%d of %d)", j, n), func(f ingest.Feature) {
 				es := f.Get(b6.PathTag).Value.AnyExpression.(b6.Expressions)
-				es[j] = b6.FeatureIDExpression(pid(5))
+				es[j] = b6.FeatureIDExpression(fl.pt)
 			})
 		}
 		add("path-expressions:reverse-in-place", "()", func(f ingest.Feature) {
@@ -284,6 +505,11 @@ func mutatorsFor(v variant) []mutator {
 			for i, j := 0, len(es)-1; i < j; i, j = i+1, j-1 {
 				es[i], es[j] = es[j], es[i]
 			}
+		})
+		add("path-expressions=append", "()", func(f ingest.Feature) {
+			es := f.Get(b6.PathTag).Value.AnyExpression.(b6.Expressions)
+			es = append(es, b6.FeatureIDExpression(fl.pt))
+			f.ModifyOrAddTag(b6.Tag{Key: b6.PathTag, Value: b6.Expression{AnyExpression: es}})
 		})
 	}
 	// --- area members
@@ -296,11 +522,18 @@ func mutatorsFor(v variant) []mutator {
 				if p.Paths == nil && j > 0 {
 					break
 				}
-				add("SetPathID", fmt.Sprintf("(polygon %d, path %d of %d)", i, j, np), func(f ingest.Feature) { f.(*ingest.AreaFeature).SetPathID(i, j, wid(2)) })
+				add("SetPathID", fmt.Sprintf("(polygon %d, path %d of %d)", i, j, np), func(f ingest.Feature) { f.(*ingest.AreaFeature).SetPathID(i, j, fl.path) })
 			}
-			add("SetPathIDs", fmt.Sprintf("(polygon %d)", i), func(f ingest.Feature) { f.(*ingest.AreaFeature).SetPathIDs(i, []b6.FeatureID{wid(2)}) })
+			add("SetPathIDs", fmt.Sprintf("(polygon %d)", i), func(f ingest.Feature) { f.(*ingest.AreaFeature).SetPathIDs(i, []b6.FeatureID{fl.path}) })
+			if p.Paths != nil {
+				add("SetPathIDs(append(PathIDs))", fmt.Sprintf("(polygon %d)", i), func(f ingest.Feature) {
+					a := f.(*ingest.AreaFeature)
+					ids, _ := a.PathIDs(i)
+					a.SetPathIDs(i, append(ids, fl.path))
+				})
+			}
 			add("SetPolygon", fmt.Sprintf("(polygon %d)", i), func(f ingest.Feature) {
-				f.(*ingest.AreaFeature).SetPolygon(i, wk.PolygonFromLoops([][]wk.LL{square(60, 60, 1)}))
+				f.(*ingest.AreaFeature).SetPolygon(i, wk.PolygonFromLoops([][]wk.LL{square(fl.grid, fl.grid, 1)}))
 			})
 		}
 	}
@@ -309,34 +542,99 @@ func mutatorsFor(v variant) []mutator {
 		for i := range v.spec.Members {
 			i := i
 			add("Members[i]=", fmt.Sprintf("(%d of %d)", i, len(v.spec.Members)), func(f ingest.Feature) {
-				f.(*ingest.RelationFeature).Members[i] = b6.RelationMember{ID: pid(7), Role: "written"}
+				f.(*ingest.RelationFeature).Members[i] = b6.RelationMember{ID: fl.pt2, Role: "written" + x}
 			})
 			add("Members[i].Role=", fmt.Sprintf("(%d of %d)", i, len(v.spec.Members)), func(f ingest.Feature) {
-				f.(*ingest.RelationFeature).Members[i].Role = "written"
+				f.(*ingest.RelationFeature).Members[i].Role = "written" + x
 			})
 		}
 		add("Members=append", "()", func(f ingest.Feature) {
 			r := f.(*ingest.RelationFeature)
-			r.Members = append(r.Members, b6.RelationMember{ID: pid(7), Role: "appended"})
+			r.Members = append(r.Members, b6.RelationMember{ID: fl.pt2, Role: "appended" + x})
 		})
 	}
 	// --- collection keys and values
 	if v.spec.Kind == wk.KCollection {
 		for i := range v.spec.Items {
 			i := i
-			add("Keys[i]=", fmt.Sprintf("(%d of %d)", i, len(v.spec.Items)), func(f ingest.Feature) { f.(*ingest.CollectionFeature).Keys[i] = pid(7) })
-			add("Values[i]=", fmt.Sprintf("(%d of %d)", i, len(v.spec.Items)), func(f ingest.Feature) { f.(*ingest.CollectionFeature).Values[i] = "written" })
+			add("Keys[i]=", fmt.Sprintf("(%d of %d)", i, len(v.spec.Items)), func(f ingest.Feature) { f.(*ingest.CollectionFeature).Keys[i] = fl.pt2 })
+			add("Values[i]=", fmt.Sprintf("(%d of %d)", i, len(v.spec.Items)), func(f ingest.Feature) { f.(*ingest.CollectionFeature).Values[i] = "written" + x })
 		}
 		add("Keys,Values=append", "()", func(f ingest.Feature) {
 			c := f.(*ingest.CollectionFeature)
-			c.Keys = append(c.Keys, pid(7))
-			c.Values = append(c.Values, "appended")
+			c.Keys = append(c.Keys, fl.pt2)
+			c.Values = append(c.Values, "appended"+x)
 		})
 		add("Sort", "()", func(f ingest.Feature) { f.(*ingest.CollectionFeature).Sort() })
 	}
 	// --- MergeFrom another value of the same type (longer, shorter, other geometry kind)
-	add("MergeFrom", "(other content)", func(f ingest.Feature) { f.MergeFrom(build(v.other, false)) })
+	add("MergeFrom", "(other content)", func(f ingest.Feature) {
+		o := v.other
+		if fl.altArg {
+			o = alt(o)
+		}
+		f.MergeFrom(buildSpec(o, nil, layExact))
+	})
 	return ms
+}
+
+// ---- what the world side does to the feature ----------------------------------------
+
+type worldOp struct {
+	name  string
+	class string
+	fam   string // "tags" | "AddFeature"
+	do    func(w ingest.MutableWorld) error
+}
+
+// grown: the feature's own content with one more tag and one more element in
+// every list (valid in the worlds built here).
+func grown(s wk.FSpec) wk.FSpec {
+	o := s
+	o.Tags = append(append([]wk.TagSpec{}, s.Tags...), wk.TagSpec{Key: "#w-re", Value: "added"})
+	switch s.Kind {
+	case wk.KPath:
+		o.Path = append(append([]wk.PathPt{}, s.Path...), wk.PathPt{Ref: pid(3)})
+	case wk.KArea:
+		o.Polys = append(append([]wk.PolySpec{}, s.Polys...), wk.PolySpec{Paths: []b6.FeatureID{wid(3)}})
+		if len(s.Polys) > 0 && s.Polys[0].Paths != nil {
+			o.Polys[0].Paths = append(append([]b6.FeatureID{}, o.Polys[0].Paths...), wid(3))
+		}
+	case wk.KRelation:
+		o.Members = append(append([]wk.MemberSpec{}, s.Members...), wk.MemberSpec{ID: pid(3), Role: "w"})
+	case wk.KCollection:
+		o.Items = append(append([]wk.KV{}, s.Items...), wk.KV{K: "s:w-key", V: "s:w"})
+	}
+	return o
+}
+
+// allWorldOps: thorough tier — every existing tag is a target of AddTag and
+// RemoveTag; quick tier — the first tag only.
+var allWorldOps = false
+
+func worldOpsFor(v variant) []worldOp {
+	id := v.spec.ID
+	var ops []worldOp
+	add := func(class, target string, do func(w ingest.MutableWorld) error) {
+		fam := "tags"
+		if class == "AddFeature" {
+			fam = class
+		}
+		ops = append(ops, worldOp{name: "world." + class + target, class: class, fam: fam, do: do})
+	}
+	add("AddTag", "(new searchable key)", func(w ingest.MutableWorld) error { return w.AddTag(id, b6.Tag{Key: "#w-added", Value: str("w")}) })
+	add("AddTag", "(new plain key)", func(w ingest.MutableWorld) error { return w.AddTag(id, b6.Tag{Key: "w-plain", Value: str("w")}) })
+	for i, t := range v.spec.Tags {
+		if i > 0 && !allWorldOps {
+			break
+		}
+		k := t.Key
+		add("AddTag", fmt.Sprintf("(existing tag #%d %s)", i, k), func(w ingest.MutableWorld) error { return w.AddTag(id, b6.Tag{Key: k, Value: str("w-changed")}) })
+		add("RemoveTag", fmt.Sprintf("(tag #%d %s)", i, k), func(w ingest.MutableWorld) error { return w.RemoveTag(id, k) })
+	}
+	add("AddFeature", "(same ID, other content)", func(w ingest.MutableWorld) error { return w.AddFeature(buildSpec(v.other, nil, layExact)) })
+	add("AddFeature", "(same ID, grown content)", func(w ingest.MutableWorld) error { return w.AddFeature(buildSpec(grown(v.spec), nil, layExact)) })
+	return ops
 }
 
 // ---- rendering a standalone value through its public fields and methods -------------
@@ -383,6 +681,17 @@ func render(f ingest.Feature) string {
 	return b.String()
 }
 
+// safeRender: a value damaged by the other side may make its own accessors panic.
+func safeRender(f ingest.Feature) (out string) {
+	if cls, msg := kit.Catch(func() { out = render(f) }); cls != "" {
+		if i := strings.IndexByte(msg, '\n'); i > 0 {
+			msg = msg[:i]
+		}
+		return "PANIC(" + cls + ": " + msg + ")"
+	}
+	return out
+}
+
 // ---- worlds -----------------------------------------------------------------------
 
 type worldMode struct {
@@ -399,6 +708,41 @@ func addAll(w ingest.MutableWorld, s wk.Spec) error {
 	return nil
 }
 
+// The base world of an overlay is read-only by design, so one base per (mode,
+// variant) serves every sub-case of a case; checkBases verifies at the end of
+// the case that no base changed.
+type baseEntry struct {
+	w    b6.World
+	dump wk.Dump
+}
+
+var bases = map[string]*baseEntry{}
+
+func cachedBase(key string, s wk.Spec) (b6.World, error) {
+	if e, ok := bases[key]; ok {
+		return e.w, nil
+	}
+	base, err := wk.BasicStrict(s, 1)
+	if err != nil {
+		return nil, err
+	}
+	bases[key] = &baseEntry{w: base, dump: wk.DumpWorld(base, dumpOpts)}
+	return base, nil
+}
+
+func checkBases(r *kit.Result) {
+	var keys []string
+	for k := range bases {
+		keys = append(keys, k)
+	}
+	sort.Strings(keys)
+	for _, k := range keys {
+		if diffs := wk.Diff(bases[k].dump, wk.DumpWorld(bases[k].w, dumpOpts), true); len(diffs) > 0 {
+			r.Violate("overlay-changed-its-base-world:"+k, "the base world under the overlays of this case changed (A: when built, B: after the case):\n%s", strings.Join(diffs, "\n"))
+		}
+	}
+}
+
 func worldModes() []worldMode {
 	return []worldMode{
 		{"BasicMutableWorld/new", func(v variant) (ingest.MutableWorld, error) {
@@ -410,14 +754,14 @@ func worldModes() []worldMode {
 			return w, addAll(w, append(support(), v.other))
 		}},
 		{"MutableOverlayWorld/new", func(v variant) (ingest.MutableWorld, error) {
-			base, err := wk.BasicStrict(support(), 1)
+			base, err := cachedBase("support", support())
 			if err != nil {
 				return nil, err
 			}
 			return ingest.NewMutableOverlayWorld(base), nil
 		}},
 		{"MutableOverlayWorld/replacing-overlay-feature", func(v variant) (ingest.MutableWorld, error) {
-			base, err := wk.BasicStrict(support(), 1)
+			base, err := cachedBase("support", support())
 			if err != nil {
 				return nil, err
 			}
@@ -425,7 +769,7 @@ func worldModes() []worldMode {
 			return w, addAll(w, wk.Spec{v.other})
 		}},
 		{"MutableOverlayWorld/shadowing-base-feature", func(v variant) (ingest.MutableWorld, error) {
-			base, err := wk.BasicStrict(append(support(), v.other), 1)
+			base, err := cachedBase("support+earlier-version-of:"+v.name, append(support(), v.other))
 			if err != nil {
 				return nil, err
 			}
@@ -437,18 +781,23 @@ func worldModes() []worldMode {
 	}
 }
 
-var universe = []b6.FeatureID{pid(0), pid(1), pid(2), pid(4), pid(5), pid(7), wid(0), wid(1), wid(2),
+var universe = []b6.FeatureID{pid(0), pid(1), pid(2), pid(3), pid(4), pid(5), pid(6), pid(7), wid(0), wid(1), wid(2), wid(3),
 	pid(20), wid(20), aid(20), rid(20), cid(20), pid(120), wid(120), aid(120), rid(120), cid(120)}
 
 var queries = []wk.RQ{
 	{Op: "all"},
 	{Op: "keyed", Key: "#amenity"}, {Op: "keyed", Key: "#highway"}, {Op: "keyed", Key: "#building"}, {Op: "keyed", Key: "#landuse"},
 	{Op: "keyed", Key: "#route"}, {Op: "keyed", Key: "#kind"}, {Op: "keyed", Key: "@flag"},
-	{Op: "keyed", Key: "#added"}, {Op: "keyed", Key: "#renamed"}, {Op: "keyed", Key: "#set"},
-	{Op: "tagged", Key: "#amenity", Val: "changed"}, {Op: "tagged", Key: "#amenity", Val: "written"},
+	{Op: "keyed", Key: "#added"}, {Op: "keyed", Key: "#renamed"}, {Op: "keyed", Key: "#set"}, {Op: "keyed", Key: "#at"},
+	{Op: "keyed", Key: "#w-added"}, {Op: "keyed", Key: "#w-re"}, {Op: "keyed", Key: "#~junk1"},
+	{Op: "tagged", Key: "#amenity", Val: "changed"}, {Op: "tagged", Key: "#amenity", Val: "written"}, {Op: "tagged", Key: "#amenity", Val: "w-changed"},
 }
 
 var dumpOpts = &wk.DumpOptions{IDs: universe, Queries: wk.NamedQueries(queries)}
+
+// both-sides sub-cases: the same dump without the per-type referrer lists (they
+// are filters of the untyped list, which stays).
+var dumpOptsBoth = &wk.DumpOptions{IDs: universe, Queries: wk.NamedQueries(queries), Skip: []string{"refs-"}}
 
 // ---- the space ----------------------------------------------------------------------
 
@@ -457,7 +806,9 @@ var cloneScenarios = []string{"c1:mutate-clone,original-must-not-change", "c2:mu
 
 type caseSpec struct {
 	v    variant
-	mode int // index into worldModes; -1 = clone scenarios
+	lay  layout
+	mode int // index into worldModes; -1 = no world (clone scenarios)
+	part int // 0 = one-side scenarios; world: 1+si = both-sides on world scenario si; no world: 1 = both-sides d and e
 }
 
 func sectionKinds(diffs []string) string {
@@ -477,9 +828,55 @@ func sectionKinds(diffs []string) string {
 	return strings.Join(out, "+")
 }
 
+func howStored(mode worldMode) string {
+	// the world keeps a Clone() of a new feature and MergeFrom()s into an existing one
+	if strings.Contains(mode.name, "/replacing") {
+		return "stored-by-MergeFrom"
+	}
+	return "stored-by-Clone"
+}
+
+// noteLayout records (once per case) which slice layouts the case really ran on,
+// and checks that the layout builder did not change the value's content.
+func noteLayout(r *kit.Result, c caseSpec) bool {
+	f := build(c.v, c.lay)
+	for _, kv := range layoutOf(f) {
+		r.Count("layout-built:"+kv[0]+":"+kv[1], 1)
+	}
+	if want, got := render(build(c.v, layExact)), render(f); want != got {
+		r.Violate("harness:layout-changes-content:"+c.v.kind, "variant %s layout %s\nexact:  %s\nlayout: %s", c.v.name, c.lay, want, got)
+		return false
+	}
+	return true
+}
+
+// place adds f to the world by the scenario's route; victim is the value the
+// caller goes on to change, bystander the other caller-side value (if any).
+func place(w ingest.MutableWorld, f ingest.Feature, si int) (victim, bystander ingest.Feature, err error) {
+	switch si {
+	case 0:
+		err = w.AddFeature(f)
+		victim = f
+	case 1:
+		victim = f.Clone()
+		err = w.AddFeature(f)
+		bystander = f
+	case 2:
+		err = w.AddFeature(f)
+		victim = f.Clone()
+		bystander = f
+	case 3:
+		cl := f.Clone()
+		err = w.AddFeature(cl)
+		victim = f
+		bystander = cl
+	}
+	return
+}
+
 func runWorldCase(r *kit.Result, c caseSpec, modes []worldMode) {
 	mode := modes[c.mode]
-	ms := mutatorsFor(c.v)
+	ms := mutatorsFor(c.v, flavours[0])
 	reported := map[string]bool{}
 	for si, scenario := range worldScenarios {
 		for _, m := range ms {
@@ -490,23 +887,7 @@ func runWorldCase(r *kit.Result, c caseSpec, modes []worldMode) {
 				r.Count("skipped:"+mode.name+":"+err.Error(), 1)
 				continue
 			}
-			f := build(c.v.spec, c.v.spare)
-			var victim ingest.Feature // what the caller mutates afterwards
-			switch si {
-			case 0:
-				err = w.AddFeature(f)
-				victim = f
-			case 1:
-				victim = f.Clone()
-				err = w.AddFeature(f)
-			case 2:
-				err = w.AddFeature(f)
-				victim = f.Clone()
-			case 3:
-				cl := f.Clone()
-				err = w.AddFeature(cl)
-				victim = f
-			}
+			victim, _, err := place(w, build(c.v, c.lay), si)
 			if err != nil || !w.HasFeatureWithID(c.v.spec.ID) {
 				r.Violate("harness:add-rejected:"+c.v.kind, "%s: AddFeature(%s) = %v", mode.name, c.v.spec, err)
 				continue
@@ -525,30 +906,25 @@ func runWorldCase(r *kit.Result, c caseSpec, modes []worldMode) {
 				continue
 			}
 			r.AddOutcome("world-changed:" + scenario[:2] + ":" + c.v.kind)
-			// the world keeps a Clone() of a new feature and MergeFrom()s into an existing one
-			how := "stored-by-Clone"
-			if strings.Contains(mode.name, "/replacing") {
-				how = "stored-by-MergeFrom"
-			}
-			class := fmt.Sprintf("world-changed:%s:%s:%s", c.v.kind, how, m.class)
+			class := fmt.Sprintf("world-changed:%s:%s:%s", c.v.kind, howStored(mode), m.class)
 			r.Count("violations:"+class+":"+strings.SplitN(scenario, ":", 2)[0], 1)
 			if reported[class] {
 				continue
 			}
 			reported[class] = true
-			r.Violate(class, "%s, scenario %s\nfeature: %s (variant %s)\ncaller-side mutation: %s\nthe world's answers changed (%s) (A: before the mutation, B: after):\n%s",
-				mode.name, scenario, c.v.spec, c.v.name, m.name, sectionKinds(diffs), strings.Join(diffs, "\n"))
+			r.Violate(class, "%s, scenario %s\nfeature: %s (variant %s, layout %s: %s)\ncaller-side mutation: %s\nthe world's answers changed (%s) (A: before the mutation, B: after):\n%s",
+				mode.name, scenario, c.v.spec, c.v.name, c.lay, layoutText(build(c.v, c.lay)), m.name, sectionKinds(diffs), strings.Join(diffs, "\n"))
 		}
 	}
 }
 
 func runCloneCase(r *kit.Result, c caseSpec) {
-	ms := mutatorsFor(c.v)
+	ms := mutatorsFor(c.v, flavours[0])
 	reported := map[string]bool{}
 	for si, scenario := range cloneScenarios {
 		for _, m := range ms {
 			r.Evals++
-			f := build(c.v.spec, c.v.spare)
+			f := build(c.v, c.lay)
 			cl := f.Clone()
 			if rf, rc := render(f), render(cl); rf != rc {
 				class := "clone-differs-from-original:" + c.v.kind
@@ -564,7 +940,7 @@ func runCloneCase(r *kit.Result, c caseSpec) {
 			}
 			before := render(witness)
 			kit.Catch(func() { m.do(victim) })
-			after := render(witness)
+			after := safeRender(witness)
 			if before == after {
 				r.AddOutcome("independent:" + scenario[:2] + ":" + c.v.kind)
 				r.Distinct++
@@ -577,61 +953,346 @@ func runCloneCase(r *kit.Result, c caseSpec) {
 				continue
 			}
 			reported[class] = true
-			r.Violate(class, "scenario %s, variant %s\nmutation: %s\nthe %s changed:\n  before: %s\n  after:  %s", scenario, c.v.name, m.name, wname, before, after)
+			r.Violate(class, "scenario %s, variant %s, layout %s: %s\nmutation: %s\nthe %s changed:\n  before: %s\n  after:  %s", scenario, c.v.name, c.lay, layoutText(build(c.v, c.lay)), m.name, wname, before, after)
+		}
+	}
+}
+
+// alone applies one mutator to a replica that nothing else shares: a fresh value
+// of the layout (cloned first if the side under test is a clone).
+func alone(c caseSpec, viaClone bool, m mutator) string {
+	rep := build(c.v, c.lay)
+	if viaClone {
+		rep = rep.Clone()
+	}
+	kit.Catch(func() { m.do(rep) })
+	return safeRender(rep)
+}
+
+// runWorldBoth: both-sides sequences on world scenario si.
+func runWorldBoth(r *kit.Result, c caseSpec, modes []worldMode, si int) {
+	mode := modes[c.mode]
+	scenario := worldScenarios[si]
+	sc := strings.SplitN(scenario, ":", 2)[0]
+	ms := mutatorsFor(c.v, flavours[0])
+	wos := worldOpsFor(c.v)
+	viaClone := si == 1 || si == 2
+	pristine := render(build(c.v, c.lay))
+	// what each side alone holds
+	expVictim := make([]string, len(ms))
+	for i, m := range ms {
+		expVictim[i] = alone(c, viaClone, m)
+	}
+	replica := func(wo *worldOp) (wk.Dump, error) {
+		w, err := mode.make(c.v)
+		if err != nil {
+			return nil, err
+		}
+		if err := w.AddFeature(build(c.v, c.lay)); err != nil {
+			return nil, fmt.Errorf("AddFeature: %v", err)
+		}
+		if wo != nil {
+			if err := wo.do(w); err != nil {
+				return nil, fmt.Errorf("%s: %v", wo.name, err)
+			}
+		}
+		return wk.DumpWorld(w, dumpOptsBoth), nil
+	}
+	pristineDump, err := replica(nil)
+	if err != nil {
+		r.Violate("harness:replica-world-not-buildable:"+c.v.kind, "%s variant %s: %v", mode.name, c.v.name, err)
+		return
+	}
+	expDump := make([]wk.Dump, len(wos))
+	worldChanges := make([]bool, len(wos))
+	for i := range wos {
+		d, err := replica(&wos[i])
+		if err != nil {
+			r.Violate("harness:world-operation-rejected:"+c.v.kind+":"+wos[i].class, "%s variant %s: %v", mode.name, c.v.name, err)
+			return
+		}
+		expDump[i] = d
+		worldChanges[i] = len(wk.Diff(pristineDump, d, true)) > 0
+	}
+	reported := map[string]bool{}
+	orders := []string{"world-first", "caller-first"}
+	for oi, order := range orders {
+		for wi := range wos {
+			wo := &wos[wi]
+			for mi, m := range ms {
+				r.Evals++
+				w, err := mode.make(c.v)
+				if err != nil {
+					r.AddOutcome("skipped:world-not-buildable:" + c.v.kind)
+					continue
+				}
+				victim, bystander, err := place(w, build(c.v, c.lay), si)
+				if err != nil {
+					r.Violate("harness:add-rejected:"+c.v.kind, "%s: AddFeature(%s) = %v", mode.name, c.v.spec, err)
+					continue
+				}
+				var werr error
+				doWorld := func() {
+					if cls, msg := kit.Catch(func() { werr = wo.do(w) }); cls != "" {
+						werr = fmt.Errorf("panic %s: %s", cls, strings.SplitN(msg, "\n", 2)[0])
+					}
+				}
+				doCaller := func() { kit.Catch(func() { m.do(victim) }) }
+				if oi == 0 {
+					doWorld()
+					doCaller()
+				} else {
+					doCaller()
+					doWorld()
+				}
+				got := wk.DumpWorld(w, dumpOptsBoth)
+				gotVictim := safeRender(victim)
+				diffs := wk.Diff(expDump[wi], got, true)
+				// one class per sub-case: feature kind, how the world stored the value, and
+				// which part of the value each side edited; which side came out wrong, and
+				// the exact operations, are in the message and the counters
+				var problems []string
+				if werr != nil {
+					problems = append(problems, fmt.Sprintf("the world-side operation, which succeeds when the caller leaves its value alone, failed: %v", werr))
+				}
+				if len(diffs) > 0 {
+					problems = append(problems, fmt.Sprintf("WORLD: the world does not return what it returns when the caller leaves its value alone (%s) (A: world alone, B: observed):\n%s",
+						sectionKinds(diffs), strings.Join(diffs, "\n")))
+				}
+				if gotVictim != expVictim[mi] {
+					problems = append(problems, fmt.Sprintf("CALLER: the caller's value is not what the same mutation gives on a value nothing else shares:\n  alone:    %s\n  observed: %s", expVictim[mi], gotVictim))
+				}
+				if bystander != nil {
+					if gb := safeRender(bystander); gb != pristine {
+						problems = append(problems, fmt.Sprintf("BYSTANDER: the caller's other value (which neither side addressed) changed:\n  before: %s\n  after:  %s", pristine, gb))
+					}
+				}
+				if len(problems) > 0 {
+					r.AddOutcome("both-sides-interfere:" + sc + ":" + c.v.kind)
+					class := fmt.Sprintf("both-sides:world-and-caller-interfere:%s:%s:world.%s/caller.%s", c.v.kind, howStored(mode), wo.fam, m.fam)
+					r.Count(fmt.Sprintf("violations:%s:%s:%s:world.%s/caller.%s", class, sc, order, wo.class, m.class), 1)
+					if !reported[class] {
+						reported[class] = true
+						r.Violate(class, "%s, scenario %s, both sides changed (%s)\nfeature: %s (variant %s, layout %s: %s)\nworld-side operation: %s\ncaller-side mutation: %s\n%s",
+							mode.name, scenario, order, c.v.spec, c.v.name, c.lay, layoutText(build(c.v, c.lay)), wo.name, m.name, strings.Join(problems, "\n"))
+					}
+					continue
+				}
+				if worldChanges[wi] && expVictim[mi] != pristine {
+					r.AddOutcome("both-sides-independent:" + sc + ":" + c.v.kind)
+					r.Distinct++
+				} else {
+					r.AddOutcome("both-sides-independent(one-side-no-op):" + sc + ":" + c.v.kind)
+				}
+			}
+		}
+	}
+}
+
+// runCloneBoth: both-sides sequences on clones without a world (scenarios d, e).
+func runCloneBoth(r *kit.Result, c caseSpec) {
+	msA := mutatorsFor(c.v, flavours[0])
+	msB := mutatorsFor(c.v, flavours[1])
+	pristine := render(build(c.v, c.lay))
+	origA := make([]string, len(msA))  // original changed alone, flavour A
+	cloneA := make([]string, len(msA)) // a clone changed alone, flavour A
+	cloneB := make([]string, len(msB)) // a clone changed alone, flavour B
+	for i := range msA {
+		origA[i] = alone(c, false, msA[i])
+		cloneA[i] = alone(c, true, msA[i])
+	}
+	for i := range msB {
+		cloneB[i] = alone(c, true, msB[i])
+	}
+	reported := map[string]bool{}
+	type scen struct{ name, first string }
+	scens := []scen{
+		{"d:original-and-clone-both-mutated", "original-first"}, {"d:original-and-clone-both-mutated", "clone-first"},
+		{"e:two-clones-both-mutated", "first-clone-first"}, {"e:two-clones-both-mutated", "second-clone-first"},
+	}
+	for sci, s := range scens {
+		sc := s.name[:1]
+		for ai, ma := range msA {
+			for bi, mb := range msB {
+				r.Evals++
+				f := build(c.v, c.lay)
+				var sideA, sideB, third ingest.Feature
+				var expA, expB string
+				if sc == "d" {
+					sideA, sideB = f, f.Clone()
+					expA, expB = origA[ai], cloneB[bi]
+				} else {
+					sideA, sideB, third = f.Clone(), f.Clone(), f
+					expA, expB = cloneA[ai], cloneB[bi]
+				}
+				if sci%2 == 0 {
+					kit.Catch(func() { ma.do(sideA) })
+					kit.Catch(func() { mb.do(sideB) })
+				} else {
+					kit.Catch(func() { mb.do(sideB) })
+					kit.Catch(func() { ma.do(sideA) })
+				}
+				gotA, gotB := safeRender(sideA), safeRender(sideB)
+				names := [2]string{"original", "clone"}
+				if sc == "e" {
+					names = [2]string{"first-clone", "second-clone"}
+				}
+				var problems []string
+				if gotA != expA {
+					problems = append(problems, fmt.Sprintf("the %s is not what the same mutation gives on a value nothing else shares:\n  alone:    %s\n  observed: %s", names[0], expA, gotA))
+				}
+				if gotB != expB {
+					problems = append(problems, fmt.Sprintf("the %s is not what the same mutation gives on a value nothing else shares:\n  alone:    %s\n  observed: %s", names[1], expB, gotB))
+				}
+				if third != nil {
+					if g := safeRender(third); g != pristine {
+						problems = append(problems, fmt.Sprintf("the original, which nobody touched, changed:\n  before: %s\n  after:  %s", pristine, g))
+					}
+				}
+				if len(problems) > 0 {
+					r.AddOutcome("both-sides-interfere:" + sc + ":" + c.v.kind)
+					class := fmt.Sprintf("both-sides:%s-and-%s-interfere:%s:%s/%s", names[0], names[1], c.v.kind, ma.fam, mb.fam)
+					r.Count(fmt.Sprintf("violations:%s:%s:%s.%s/%s.%s", class, s.first, names[0], ma.class, names[1], mb.class), 1)
+					if !reported[class] {
+						reported[class] = true
+						r.Violate(class, "scenario %s (%s), variant %s, layout %s: %s\nmutation of the %s: %s\nmutation of the %s: %s\n%s",
+							s.name, s.first, c.v.name, c.lay, layoutText(build(c.v, c.lay)), names[0], ma.name, names[1], mb.name, strings.Join(problems, "\n"))
+					}
+					continue
+				}
+				if expA != pristine && expB != pristine {
+					r.AddOutcome("both-sides-independent:" + sc + ":" + c.v.kind)
+					r.Distinct++
+				} else {
+					r.AddOutcome("both-sides-independent(one-side-no-op):" + sc + ":" + c.v.kind)
+				}
+			}
 		}
 	}
 }
 
 func main() {
+	// The worlds start goroutines for most queries; with many worker processes on
+	// a shared machine, waking threads for them costs more than the queries.
+	runtime.GOMAXPROCS(1)
 	modes := worldModes()
 	kit.Main(&kit.Check{
 		ID:    "C38",
 		Level: "exploration",
-		Rule: "every feature variant x (world and mode | clone-only) is a case; inside, every mutator of the value's shape at every target index (tag methods incl. ModifyOrAddTagAt, direct writes to Tags[i], in-place writes to the path expression list, SetPathID/SetPathIDs/SetPolygon, Members[i], Keys[i]/Values[i], appends, Sort, SetFeatureID, MergeFrom) x scenario (a, b1, b2, b3 on worlds; c1, c2 for clones). " +
-			"Every (variant, mode, scenario, mutator) is distinct and non-trivial when the mutation was applied and the oracle held. Oracle: worldkit dump of the world (IDs, tags, geometry, members, referrers, tag searches, enumeration) identical before and after the caller-side mutation; rendering of the untouched original/clone identical before and after.",
+		Rule: "case = feature variant x slice layout (every slice the value owns — tags, path points, per-polygon path IDs, the area's polygon lists, members, keys, values — rebuilt with exact capacity | make(len,len+3) | grown then cut back through the API; empty lists in the spare layouts are empty-with-spare-capacity; the layouts really built are counted in the counters layout-built:*) x (no world | world mode) x part. " +
+			"Part one-side: every mutator of the value's shape at every target index (tag methods incl. ModifyOrAddTagAt, direct writes to Tags[i], in-place writes and appends to the path expression list, SetPathID/SetPathIDs/SetPolygon, appends to PathIDs, Members[i], Keys[i]/Values[i], appends, Sort, SetFeatureID, MergeFrom) x scenario (a, b1, b2, b3 on worlds; c1, c2 for clones); oracle: worldkit dump of the world (IDs, tags, geometry, members, referrers, tag searches, enumeration) identical before and after the caller-side mutation; rendering of the untouched original/clone identical before and after. " +
+			"Part both-sides (one case per world scenario a/b1/b2/b3): every world-side operation on the feature's ID (AddTag new searchable key / new plain key / each existing key, RemoveTag each key — quick tier: the first existing key only —, AddFeature other content, AddFeature grown content = one more tag and one more element in every list) x every caller-side mutator x {world first, caller first}; without a world: d = original and clone, e = two clones of one original, every mutator on one x every mutator on the other (writing different content) x both orders. Oracle: each side equals its replica that nothing shares and to which only that side's operation was applied (fresh value of the same layout, resp. fresh world of the same mode given a fresh value); bystander values render as before. " +
+			"A sub-case is distinct and non-trivial when the operations were applied, each side's own operation changes that side, and the oracle held.",
 		Assumptions: []string{
 			"s2.Polygon values are treated as immutable (no mutator of the feature API edits a polygon in place)",
 			"a mutator that panics on its own value (counted in counters) still must not change the world",
+			"values that are not valid members of a world (a generic feature without any tag, a path without points, a polygon with an empty path list) take part in the clone scenarios only",
 		},
-		QuickDeadline: 300e9, ThoroughDeadline: 30 * 60e9, Chunk: 1,
+		QuickDeadline: 300e9, ThoroughDeadline: 40 * 60e9, Chunk: 1,
 		Build: func(tier string) (kit.Space, string) {
+			allWorldOps = tier == "thorough"
 			var cases []caseSpec
 			nv := 0
+			var vs []variant
 			for _, v := range variants() {
 				if tier != "thorough" && !v.quick {
 					continue
 				}
 				nv++
-				cases = append(cases, caseSpec{v: v, mode: -1})
-				for mi := range modes {
-					cases = append(cases, caseSpec{v: v, mode: mi})
+				vs = append(vs, v)
+			}
+			// simplest first: one-side parts (layout-major), then both-sides parts
+			for _, lay := range layouts {
+				for _, v := range vs {
+					cases = append(cases, caseSpec{v: v, lay: lay, mode: -1, part: 0})
+					if v.cloneOnly {
+						continue
+					}
+					for mi := range modes {
+						cases = append(cases, caseSpec{v: v, lay: lay, mode: mi, part: 0})
+					}
+				}
+			}
+			for _, lay := range layouts {
+				for _, v := range vs {
+					cases = append(cases, caseSpec{v: v, lay: lay, mode: -1, part: 1})
+					if v.cloneOnly {
+						continue
+					}
+					for mi := range modes {
+						for si := range worldScenarios {
+							cases = append(cases, caseSpec{v: v, lay: lay, mode: mi, part: 1 + si})
+						}
+					}
 				}
 			}
 			return kit.FuncSpace{N: int64(len(cases)), F: func(i int64) kit.Result {
-				var r kit.Result
-				c := cases[i]
-				if c.mode < 0 {
-					runCloneCase(&r, c)
-				} else {
-					runWorldCase(&r, c, modes)
-				}
-				r.Nontrivial = r.Distinct > 0
-				where := "clone-only"
-				if c.mode >= 0 {
-					where = modes[c.mode].name
-				}
-				if i%7 == 0 {
-					var names []string
-					for _, m := range mutatorsFor(c.v) {
-						names = append(names, m.name)
+					var r kit.Result
+					c := cases[i]
+					if noteLayout(&r, c) {
+						switch {
+						case c.mode < 0 && c.part == 0:
+							runCloneCase(&r, c)
+						case c.mode < 0:
+							runCloneBoth(&r, c)
+						case c.part == 0:
+							runWorldCase(&r, c, modes)
+						default:
+							runWorldBoth(&r, c, modes, c.part-1)
+						}
+						checkBases(&r)
 					}
-					r.Sample = map[string]interface{}{"variant": c.v.name, "feature": c.v.spec.String(), "where": where, "mutators": names}
-				}
-				if r.Evals == 0 {
-					r.Evals = 1
-				}
-				return r
-			}}, fmt.Sprintf("%d feature variants (7 kinds%s) x {clone-only, 5 world modes} ; all mutators at all indices x {a,b1,b2,b3 | c1,c2}", nv, map[bool]string{true: ", 2 sizes each, with and without spare slice capacity", false: ""}[tier == "thorough"])
+					r.Nontrivial = r.Distinct > 0
+					where := "no world"
+					if c.mode >= 0 {
+						where = modes[c.mode].name
+					}
+					part := "one-side"
+					if c.part > 0 {
+						part = "both-sides"
+						if c.mode >= 0 {
+							part += ":" + worldScenarios[c.part-1]
+						}
+					}
+					if i%11 == 0 {
+						var names []string
+						for _, m := range mutatorsFor(c.v, flavours[0]) {
+							names = append(names, m.name)
+						}
+						s := map[string]interface{}{"variant": c.v.name, "feature": c.v.spec.String(), "layout": c.lay.String() + ": " + layoutText(build(c.v, c.lay)), "where": where, "part": part, "mutators": names}
+						if c.part > 0 && c.mode >= 0 {
+							var wn []string
+							for _, wo := range worldOpsFor(c.v) {
+								wn = append(wn, wo.name)
+							}
+							s["world_operations"] = wn
+						}
+						r.Sample = s
+					}
+					if r.Evals == 0 {
+						r.Evals = 1
+					}
+					return r
+				}}, fmt.Sprintf("%d feature variants (%d kinds, up to 4 sizes each incl. values with no tags / points / path IDs / polygons / members / items; %d of them valid in a world) x 3 slice layouts of every slice the value owns (exact capacity | spare by make(len,len+3) | spare by grow-and-cut-back; empty lists then are empty-with-spare-capacity) x {no world, 5 world modes}; one-side: all mutators at all indices x {a,b1,b2,b3 | c1,c2}; both-sides: {a,b1,b2,b3} x world operations (AddTag new searchable/new plain key, AddTag and RemoveTag of %s, AddFeature other content, AddFeature grown content) x all mutators x {world first, caller first} | {d: original+clone, e: two clones} x all mutators x all mutators x 2 orders",
+					nv, countKinds(vs), countWorld(vs), map[bool]string{true: "every existing tag", false: "the first existing tag"}[tier == "thorough"])
 		},
 	})
+}
+
+func countKinds(vs []variant) int {
+	seen := map[string]bool{}
+	for _, v := range vs {
+		seen[v.kind] = true
+	}
+	return len(seen)
+}
+
+func countWorld(vs []variant) int {
+	n := 0
+	for _, v := range vs {
+		if !v.cloneOnly {
+			n++
+		}
+	}
+	return n
 }
